@@ -9,6 +9,11 @@ CLAIMED = {
 		text='Every obligation (pre@call, post, loop invariant init/preservation, variant, exception-freedom) generated from the current source of the block-splitting helpers is discharged for all inputs; the quote-domination part of the no-cut-inside-quotes law is a labelled bounded stand-in.',
 		note='pyvc encoding of the Python subset; z3/cvc5 soundness; spec functions in specs/brackets.py are the oracle; bounded parts listed in evidence.bounded_checks',
 		ref='DESIGN.md §4 C18'),
+	'C17': dict(
+		level='proof',
+		text='Every handler of the literal evaluator is verified against a CPython-semantics spec of the operator set (type promotion, int/int true division, refusal): a normal return implies CPython evaluates the same operands without raising, to the same value and type. Floats and bitwise operators are uninterpreted (dispatch contracts); string denotations and literal parsing are a labelled bounded twin against ast.literal_eval / eval.',
+		note='floats uninterpreted; float(str)/int(str) parsing facts trusted; on_var/on_relay (member references via reflections) assumed; known finding F-C17-a (raw-text concatenation of string literals) excluded by predicate',
+		ref='DESIGN.md §4 C17'),
 	'C19': dict(
 		level='proof',
 		text='Every DI / LazyDI operation (can_resolve, bind, unbind, rebind, resolve, invoke, _clone, combine; LazyDI overrides and the inherited methods under LazyDI dispatch) is verified against the abstract view (bindings, instances, by-name definitions) with well-formedness "one instance per binding generation" and explicit frames; a reference-model twin over bounded operation histories supplies concrete failing histories and is never counted as proved.',
@@ -19,7 +24,7 @@ NOT_APPLICABLE = {
 	'C02': 'equality of two parsers over all texts (lark LALR engine interpreting grammar data vs CPython): no function contract of tranp carries it; only differential testing could, which is a different family (DESIGN.md §5)',
 	'C03': 'type soundness of the inference engine against CPython run-time types needs formal semantics of both languages and the stub library; not expressible as a contract over one call or data structure (DESIGN.md §5)',
 }
-PENDING = {p: 'designed in DESIGN.md §4, contracts not built yet in this round' for p in ['C01','C04','C05','C06','C07','C08','C09','C10','C11','C12','C13','C14','C15','C16','C17']}
+PENDING = {p: 'designed in DESIGN.md §4, contracts not built yet in this round' for p in ['C01','C04','C05','C06','C07','C08','C09','C10','C11','C12','C13','C14','C15','C16']}
 
 def main():
 	checks = []
